@@ -158,8 +158,8 @@ func (o op) coq() string {
 		return fmt.Sprintf("OFinishStartFail %d", o.T)
 	case "isboot":
 		return "OIsBoot"
-	case "reload":
-		return "OReload"
+	case "reload", "lcfault":
+		return "OReload" // for the model a real leader change is what the reload hook does: the raft cluster is loaded again
 	case "stop":
 		return "OStop"
 	case "meminit":
@@ -364,6 +364,33 @@ func (w *world) exec(o op) string {
 		if err := w.x.S.VerifC20ReloadCluster(); err != nil {
 			return "BBad"
 		}
+		return "BUnit"
+	case "lcfault":
+		// a REAL leader change (the leadership is reset; the member steps down, stops its raft cluster and campaigns again)
+		// during which ONE read of the cluster record by the new term's createRaftCluster fails. A member that cannot load
+		// the cluster must not serve as a leader without it: it has to end up leading WITH the raft cluster running.
+		w.sb.ScriptAny([]*kvx15.Step{{Match: func(x kvx15.Op) bool { return x.Kind == kvx15.Load && x.Key == "raft" }, Mode: kvx15.FailBefore}})
+		w.x.S.GetMember().ResetLeader()
+		time.Sleep(300 * time.Millisecond)
+		deadline, stableSince := time.Now().Add(30*time.Second), time.Time{}
+		for time.Now().Before(deadline) {
+			lead := !w.x.S.IsClosed() && w.x.S.GetMember().IsLeader()
+			if lead && w.x.S.GetRaftCluster() != nil {
+				break
+			}
+			if lead && w.sb.FiredAny() > 0 {
+				if stableSince.IsZero() {
+					stableSince = time.Now()
+				} else if time.Since(stableSince) > 4*time.Second {
+					break // it keeps leading without the raft cluster
+				}
+			} else {
+				stableSince = time.Time{}
+			}
+			time.Sleep(20 * time.Millisecond)
+		}
+		w.R.CountN("lcfault:read-faults-fired", w.sb.FiredAny())
+		w.sb.ScriptAny(nil)
 		return "BUnit"
 	case "stop":
 		w.x.S.VerifC20StopCluster()
@@ -1309,6 +1336,11 @@ func main() {
 			c := w.genCase(r, kind, 10)
 			emit(c, []string{"gen:bootstrap-interleavings", "gen:malformed-payloads", "gen:member-cluster-id"}[kind])
 		}
+	}
+	if *replay == "" {
+		// a real leader change with a read fault on the cluster record during the new term's load
+		runFixed([]op{{K: "boot", T: 0, PK: "valid"}, {K: "isboot"}, {K: "lcfault"}, {K: "isboot"}, {K: "getcfg"}, {K: "call", H: "GetStore"},
+			{K: "boot", T: 1, PK: "valid"}, {K: "isboot"}}, "directed:leader-change-with-read-fault")
 	}
 	w.reset(caseNo)
 	if *replay == "" {
